@@ -383,6 +383,49 @@ def many_batches(case):
   return {'evals': evals, 'nontrivial': True, 'outcome': [fam, case['counts']]}
 
 
+def dataset_routes(case):
+  """The batches come from the library's own batching of real datasets: one ClientDataset.padded_batch view whose preprocessing
+  fn builds a FRESH dict of the model's features (it forwards nothing else it was handed), and padded_batch_client_datasets
+  over several clients whose example dicts list the same features in different orders. Every (batch size, buckets) geometry
+  gives the fold of the single-example statistics."""
+  import fedjax
+  from fedjax.core import client_datasets as cds
+  fam, seq = case['family'], case['seq']
+  specs, mets, model, pool, poison, singles, zeros = family(fam)
+  want = {k: fold(singles[k], zeros[k], seq) for k in mets}
+  rows = [pool[i] for i in seq]
+  cols = {'y': np.asarray([r['y'] for r in rows], np.int32).reshape((len(rows),) + np.asarray(pool[0]['y']).shape),
+          'pred': np.asarray([r['pred'] for r in rows], np.float32).reshape((len(rows),) + np.asarray(pool[0]['pred']).shape),
+          'domain_id': np.asarray([r['domain_id'] for r in rows], np.int32)}
+
+  def select(x):
+    return {'y': x['y'], 'pred': x['pred'], 'domain_id': x['domain_id']}
+  evals = 0
+  for bs in (1, 2, 3, 4, 8):
+    for buckets in (1, 2, 3):
+      nc = dict(case, geom=[bs, buckets])
+      ds = fedjax.ClientDataset(dict(cols, extra=np.arange(len(rows))), cds.BatchPreprocessor([select]))
+      res = fedjax.evaluate_model(model, {}, ds.padded_batch(batch_size=bs, num_batch_size_buckets=buckets))
+      for k in mets:
+        _cmp_result(k, res[k], want[k], 'evaluate_model over dataset.padded_batch (selecting preprocessor)', nc)
+      got = dict(_evaluator(fam, model).evaluate_global_params({}, [(b'c', ds.padded_batch(batch_size=bs, num_batch_size_buckets=buckets))]))[b'c']
+      for k in mets:
+        _cmp_result(k, got[k], want[k], 'ModelEvaluator over dataset.padded_batch (selecting preprocessor)', nc)
+      # the same rows split over three clients; the second one lists its features in another order
+      cut1, cut2 = len(rows) // 3, (2 * len(rows) + 2) // 3
+      parts = []
+      for j, (a, b) in enumerate(((0, cut1), (cut1, cut2), (cut2, len(rows)))):
+        d = {kk: v[a:b] for kk, v in cols.items()}
+        if j == 1:
+          d = {kk: d[kk] for kk in ('domain_id', 'pred', 'y')}
+        parts.append(fedjax.ClientDataset(d))
+      res = fedjax.evaluate_model(model, {}, fedjax.padded_batch_client_datasets(parts, batch_size=bs, num_batch_size_buckets=buckets))
+      for k in mets:
+        _cmp_result(k, res[k], want[k], 'evaluate_model over padded_batch_client_datasets (feature order differs between clients)', nc)
+      evals += 3
+  return {'evals': evals, 'nontrivial': True, 'outcome': [fam, seq]}
+
+
 def compositions(n):
   """All ways to cut range(n) into consecutive non-empty parts."""
   for cuts in itertools.product((0, 1), repeat=n - 1):
@@ -591,7 +634,7 @@ def pmap_evaluator(case):
   return {'evals': evals, 'nontrivial': True, 'outcome': [fam, ndev]}
 
 
-SUBS = {'narrow_labels': narrow_labels, 'many_batches': many_batches, 'mixed_streams': mixed_streams, 'model_replace': model_replace, 'pmap_evaluator': pmap_evaluator, 'batch_level': batch_level, 'partition_level': partition_level, 'monoid': monoid, 'empty': empty}
+SUBS = {'dataset_routes': dataset_routes, 'narrow_labels': narrow_labels, 'many_batches': many_batches, 'mixed_streams': mixed_streams, 'model_replace': model_replace, 'pmap_evaluator': pmap_evaluator, 'batch_level': batch_level, 'partition_level': partition_level, 'monoid': monoid, 'empty': empty}
 TIMEOUTS = {k: 900 for k in SUBS}
 
 
@@ -643,6 +686,7 @@ def plan(ctx):
   ctx.pmap('mixed_streams', [{'family': f, 'kind': k} for f in ('cls', 'seq') for k in ('mixed', 'reuse')] +
            [{'family': f, 'kind': 'big', 'rows': r} for f in ('cls', 'seq') for r in ([1023, 1024, 1025], [2048], [3072, 4095]) if th or r != [3072, 4095]],
            chunk=1)
+  ctx.pmap('dataset_routes', [{'family': f, 'seq': sq} for f in ('cls', 'seq') for sq in ([0, 1, 2, 3, 4], [3, 1], [2], [4, 4, 0, 1, 3, 2, 0])], chunk=2)
   ctx.pmap('many_batches', [{'family': f, 'counts': cs, 'evaluator': cs[0] < 200} for f in ('cls', 'seq')
                             for cs in ([127, 129, 150], [255, 257, 300], [17, 31, 33, 63, 65, 100]) + (([511, 513, 1000], [128, 130, 256]) if th else ())], chunk=1)
   ctx.pmap('narrow_labels', [{'C': c, 'label_dtype': d} for c in (3, 20, 62, 130) for d in ('uint8', 'int8', 'int16', 'uint16', 'int32')
